@@ -392,8 +392,71 @@ def sec_measure(ctx, rng, case):
     ctx.distinct((kind, tuple(d)))
 
 
+
+def sec_controlled_decompose(ctx, rng, case):
+    """controlled gates: every combination of per-control value sets over 1-3 qubit controls (exhaustive over
+    {0}, {1}, {0,1} patterns, indexed by the case number) - matrix, apply_unitary and both decompositions agree with
+    the block matrix"""
+    import itertools
+
+    import cirq
+
+    specs = [s_ for s_ in _S["u"] if s_.shape in ((2,), (2, 2)) and "matrix" not in s_.tags]
+    sets = [(0,), (1,), (0, 1)]
+    combos = [c for k in (1, 2, 3) for c in itertools.product(sets, repeat=k)]
+    combo = combos[case % len(combos)]
+    spec = specs[(case // len(combos)) % len(specs)]
+    p = spec.sample(rng)
+    if spec.eigen and rng.random() < 0.5:
+        p = (float(rng.choice([0.5, 1.0, -0.25, 0.3])), float(rng.choice([0.0, 0.0, 0.5])))
+    g = spec.make(p)
+    U = np.asarray(spec.ref(p), dtype=complex)
+    k = len(combo)
+    allowed = list(itertools.product(*combo))
+    want = L.controlled(U, [2] * k, allowed)
+    cq = [cirq.LineQubit(10 + i) for i in range(k)]
+    tq = [cirq.LineQubit(i) for i in range(len(spec.shape))]
+    qids = cq + tq
+    shape = (2,) * len(qids)
+    D = 2 ** len(qids)
+    name = spec.name
+    wit = dict(family=name, params=p, control_values=[list(c) for c in combo])
+    forms = [("gate.controlled", g.controlled(k, control_values=list(combo)).on(*qids)),
+             ("op.controlled_by", g.on(*tq).controlled_by(*cq, control_values=list(combo)))]
+    for label, op in forms:
+        u = cirq.unitary(op, None)
+        ctx.check(u is not None and L.allclose(u, want, 1e-7), "unitary", "C04:controlled-unitary:" + label, "", **wit)
+        psi = L.random_state(rng, D)
+        t = psi.astype(np.complex128).reshape(shape)
+        out = cirq.apply_unitary(op, cirq.ApplyUnitaryArgs(t, np.full(t.shape, np.nan, dtype=np.complex128), list(range(len(qids)))), None)
+        ctx.check(out is not None and L.allclose(np.asarray(out).reshape(-1), want @ psi, 1e-7), "apply_unitary", "C04:controlled-apply-unitary:" + label, "", **wit)
+        pos = {q: i for i, q in enumerate(qids)}
+        for full in (False, True):
+            dec = cirq.decompose(op) if full else cirq.decompose_once(op, None)
+            if dec is None or (full and len(dec) == 1 and dec[0] == op):
+                ctx.event("no-decomposition")
+                continue
+            if any(q not in pos for o in dec for q in o.qubits):
+                ctx.event("decomposition-with-ancilla")
+                continue
+            M = np.eye(D, dtype=complex)
+            ok = True
+            for o in dec:
+                uo = cirq.unitary(o, None)
+                if uo is None:
+                    ok = False
+                    break
+                M = L.embed(uo, [pos[q] for q in o.qubits], shape) @ M
+            ctx.check(ok and L.allclose(M, want, 1e-6), "decompose", "C04:controlled-decompose%s:%s" % ("-full" if full else "-once", label),
+                      lambda: "decomposition of the controlled gate deviates from the block matrix by %.3g" % L.maxdiff(M, want),
+                      parts=[repr(o)[:70] for o in dec][:12], **wit)
+    ctx.distinct((name, repr(p)[:100], combo), nontrivial=not L.allclose(U, np.eye(U.shape[0]), 1e-6))
+    ctx.sample({"family": name, "control_values": [list(c) for c in combo]})
+
+
 SECTIONS = [
     ("unitary_values", sec_unitary_values, 3500, 90000, 6.0),
     ("channels", sec_channels, 1200, 30000, 1.5),
     ("measure", sec_measure, 200, 2000, 0.3),
+    ("controlled_decompose", sec_controlled_decompose, 1170, 30000, 1.5),
 ]
